@@ -15,6 +15,10 @@ use dlt_core::dlt::*;
 use dlt_core::parse::{dlt_message, ParsedMessage};
 use std::convert::TryFrom;
 
+fn msin_bits_of(t: &MessageType) -> u8 {
+    refcodec::msin_bits(t)
+}
+
 /// the crate's writer API is generic over byteorder::ByteOrder; the harness only names the two
 /// marker types (re-exported by dlt-core's dependency graph via the `byteorder` crate).
 mod byteorder_shim {
@@ -50,7 +54,7 @@ fn check_word(ctx: &mut Ctx, w: u32, accepted: &mut u64) {
         (None, Err(_)) => {}
         (Some(d), Ok(g)) => {
             *accepted += 1;
-            if d != g {
+            if format!("{:?}", d) != format!("{:?}", g) {
                 ctx.violation("typeinfo.description", refcodec::kind_name(&d.kind), || {
                     J::obj().set("word", format!("{:#010x}", w)).set("got", format!("{:?}", g)).set("expected", format!("{:?}", d))
                 });
@@ -69,7 +73,7 @@ fn check_word(ctx: &mut Ctx, w: u32, accepted: &mut u64) {
                 });
             }
             match TypeInfo::try_from(e) {
-                Ok(g2) if &g2 == g => {}
+                Ok(g2) if format!("{:?}", g2) == format!("{:?}", g) => {}
                 other => ctx.violation("typeinfo.reencode_decodes_same", refcodec::kind_name(&d.kind), || {
                     J::obj().set("word", format!("{:#010x}", w)).set("reencoded", format!("{:#010x}", e)).set("got", format!("{:?}", other))
                 }),
@@ -127,7 +131,7 @@ fn check_word_through_parser(ctx: &mut Ctx, w: u32, be: bool, msin: u8) {
     match (exp, res) {
         (_, Err(p)) => ctx.panic_violation("typeinfo.parser_no_panic", &p, || detail("panic".into())),
         (Some(d), Ok(Ok(ParsedMessage::Item(m)))) => match &m.payload {
-            PayloadContent::Verbose(a) if a.len() == 1 && a[0].type_info == d => ctx.obs("typeinfo.parser_accepts_ok"),
+            PayloadContent::Verbose(a) if a.len() == 1 && format!("{:?}", a[0].type_info) == format!("{:?}", d) => ctx.obs("typeinfo.parser_accepts_ok"),
             other => ctx.violation("typeinfo.parser_description", refcodec::kind_name(&d.kind), || detail(format!("{:?}", other))),
         },
         (Some(d), Ok(other)) => ctx.violation("typeinfo.parser_refused_supported", refcodec::kind_name(&d.kind), || detail(format!("{:?}", other))),
@@ -231,7 +235,7 @@ fn check_msin(ctx: &mut Ctx) {
             Err(p) => ctx.panic_violation("msin.no_panic", &p, || detail("panic".into())),
             Ok(Err(e)) => ctx.violation("msin.decodes", &format!("{:#04x}", b), || detail(format!("{}", e))),
             Ok(Ok(t)) => {
-                if t != exp {
+                if format!("{:?}", t) != format!("{:?}", exp) || msin_bits_of(&t) != msin_bits_of(&exp) {
                     ctx.violation("msin.decodes_per_layout", &format!("mstp={}", (b >> 1) & 7), || detail(format!("{:?}", t)));
                 } else {
                     let back = guarded(|| u8::from(&t));
@@ -256,7 +260,7 @@ fn check_msin(ctx: &mut Ctx) {
         match res {
             Err(p) => ctx.panic_violation("msin.no_panic", &p, || detail("panic".into())),
             Ok(Ok(ParsedMessage::Item(msg))) => match &msg.extended_header {
-                Some(x) if x.message_type == exp && x.verbose == verbose && x.argument_count == 0 && x.application_id == "AB" && x.context_id == "CDEF" => {
+                Some(x) if format!("{:?}", x.message_type) == format!("{:?}", exp) && x.verbose == verbose && x.argument_count == 0 && x.application_id == "AB" && x.context_id == "CDEF" => {
                     let back = x.as_bytes();
                     if back[..] != m[4..14] {
                         ctx.violation("msin.extended_header_bytes", &format!("mstp={}", (b >> 1) & 7), || detail(hex(&back)));
